@@ -313,6 +313,18 @@ theorem history_load_ok_resolves_all_partial (ls : List LoadW) (s0 : St) (i : Na
   rw [he, entry_fresh_is_load] at hr
   exact load_ok_resolves_all_partial l.w hC l.fuel l.e.root s hr hf ht hc
 
+/-- soundness at every position of a changing-store history, for every entry point (LoadFromData too) and also for
+    the state a FAILED load leaves: a load that raises neither flag records only values that are right in ITS store —
+    nothing recorded by an earlier load, over earlier files, is among them -/
+theorem history_values_right_partial (ls : List LoadW) (s0 : St) (i : Nat) (l : LoadW) (r : Res) (s : St)
+    (hres : ∀ x ∈ ls, x.e.resets = true) (hnf : ∀ x ∈ ls, loadEntry x.w x.fuel x.e {} ≠ .outOfFuel)
+    (hl : ls[i]? = some l) (hr : (loadSeqW ls s0)[i]? = some r) (hs : r.st? = some s)
+    (hC : CopyOK l.w) (hf : s.foreign = false) (ht : s.tclash = false) : Good l.w s := by
+  rw [changing_store_history_is_fresh_loads ls s0 hres hnf, List.getElem?_map, hl] at hr
+  simp only [Option.map_some, Option.some.injEq] at hr
+  subst hr
+  exact entry_values_right_partial l.w hC l.fuel l.e (hres l (List.mem_of_getElem? hl)) {} s hs hf ht
+
 /-! ### (T) the ten resolvers have the skeleton and the child calls the model assumes
 
 `Gen.resolverSkeleton` is regenerated from openapi3/loader.go on every run. -/
